@@ -79,6 +79,34 @@ class Recorder:
         self.t0 = time.time()
         self.budget = float(os.environ.get("VERIF_BUDGET_S", "0") or 0)
         self.truncated = 0
+        # case-in-flight marker: if the *interpreter* dies on a case (measured: CPython 3.12/3.13 segfault on a few
+        # scope shapes), the driver reads the marker, reruns the shard and skips that case (inconclusive, never held)
+        self._marker_fd = None
+        mp = os.environ.get("OLVERIF_MARKER")
+        if mp:
+            self._marker_fd = os.open(mp, os.O_WRONLY | os.O_CREAT, 0o600)
+        try:
+            self.skip = set(json.loads(os.environ.get("OLVERIF_SKIP", "[]")))
+        except ValueError:
+            self.skip = set()
+
+    def begin_case(self, key):
+        """Returns False if the case must be skipped because the interpreter died on it in an earlier attempt."""
+        k = h8(key)
+        if k in self.skip:
+            self.inconc("interpreter-died-on-this-case-in-an-earlier-attempt")
+            return False
+        if self._marker_fd is not None:
+            os.pwrite(self._marker_fd, k.encode(), 0)
+        nth = os.environ.get("OLVERIF_TEST_DIE_NTH")      # self-test hook of the rerun mechanism only
+        if nth and not self.skip:
+            self._n_begin = getattr(self, "_n_begin", 0) + 1
+            if self._n_begin == int(nth):
+                os.kill(os.getpid(), signal.SIGSEGV)
+        return True
+
+    def _unused(self):
+        pass
 
     # -- budget (only used when VERIF_BUDGET_S is set; otherwise sizes are logical)
     def out_of_budget(self):
